@@ -253,7 +253,8 @@ func lexerGoroutines() int {
 func parseOne(text string) (msg string, rejected bool) {
 	// the name the input goes by: a bare file name or a path (the error must name the input as it was given, two
 	// files of the same name in different directories are different inputs)
-	name := []string{"in.yang", "dir/sub/in.yang", "./in.yang", "/usr/share/yang/vendor-a/in.yang", "a b/in.yang", "../in.yang", "in.yang"}[len(text)%7]
+	// (a name may hold any character a file name may, a per-cent sign among them)
+	name := []string{"in.yang", "dir/sub/in.yang", "./in.yang", "/usr/share/yang/vendor-a/in.yang", "a b/in.yang", "../in.yang", "in.yang", "100%/in%sv%d.yang", "a%.yang"}[len(text)%9]
 	before := runtime.NumGoroutine()
 	var tree *parse.Tree
 	var err error
